@@ -202,6 +202,12 @@ fn from_raw<const MAX: usize>(rep: &mut Report, r: &mut Rng) {
     if len > 0 && r.chance(3, 4) {
         v[0] = 0;
     }
+    // an over-long slice is over-long whatever its tail holds: also null entries beyond the capacity
+    if len > MAX && r.chance(1, 2) {
+        for x in v[MAX..].iter_mut() {
+            *x = 0;
+        }
+    }
     let should_panic = len == 0 || v[0] != 0 || len > MAX;
     let res = catch(|| Box::new(GlobalDescriptorTable::<MAX>::from_raw_entries(&v)));
     match res {
